@@ -183,7 +183,7 @@ func propC09(r *Run, w *World) {
 			if p.End != "return" {
 				continue
 			}
-			ret := p.Return()
+			ret := p.Ret()
 			// the branch that tests the SYSCALL record found by the loop (a phi of the loop) against nil
 			noSys := false
 			for _, e := range p.Events {
